@@ -74,7 +74,9 @@ def check(ctx):
     traces = anngen.run(ctx.seed, ctx.pick(360, 6000), ctx.pick(8, 12), INSTS, list("ABCDEF"), tag="c12")
     # finds of requesters that also hold subscriptions and reboot now and then (answers must not get lost on the way)
     traces2 = anngen.run(ctx.seed, ctx.pick(240, 3000), ctx.pick(8, 12), ["I1", "I2", "I4"], list("BDFB"), tag="c12s", with_sub=True, find_share=0.6)
-    bad, ms = judge(ctx, "Mon_C12", traces + traces2 + reboot_while_answer_pending() + restart_while_answer_pending(), "find histories", anngen.payload)
+    # the same service announced twice (two listeners, two endpoints): every one of them answers
+    traces3 = anngen.run(ctx.seed, ctx.pick(120, 1500), ctx.pick(8, 12), ["I1", "I6", "I2"], list("ABF"), tag="c12t")
+    bad, ms = judge(ctx, "Mon_C12", traces + traces2 + traces3 + reboot_while_answer_pending() + restart_while_answer_pending(), "find histories", anngen.payload)
     sim = anngen.spec_to_code_ann(ctx, "Mon_C12", "C12_S", "C12_SInputs", "B", ["I1", "I4"], ["I1", "I4"], ctx.pick(20, 300))
     acc, total = anngen.conform_by_variant(ctx, traces, ctx.pick(100, 1000))
     cov = dict(states=m1.states, transitions=m1.trans, traces_validated_against_impl=acc, monitor_traces=len(traces),
